@@ -478,7 +478,7 @@ def h_release_s3(h: H):
 
 
 def _replay_s3lock(ob):
-    fallback = ob.get("verdict") == "undecided"
+    fallback = ob.get("verdict") in ("undecided", "scenario")
     return f"FALLBACK = {fallback!r}\n" + '''
 import sys, datetime, time
 from doubles.s3 import FakeS3
